@@ -73,7 +73,38 @@ pub struct Violation {
     pub failing_input_found: bool,
 }
 
+/// The implementation side runs on a worker thread so that a request that never returns (an
+/// infinite loop in the engine) is reported instead of hanging the check.
+pub struct Worker {
+    tx: std::sync::mpsc::Sender<String>,
+    rx: std::sync::mpsc::Receiver<String>,
+}
+
+impl Worker {
+    pub fn spawn() -> Worker {
+        let (tx, rx_in) = std::sync::mpsc::channel::<String>();
+        let (tx_out, rx) = std::sync::mpsc::channel::<String>();
+        std::thread::Builder::new()
+            .stack_size(64 << 20)
+            .spawn(move || {
+                for line in rx_in {
+                    if tx_out.send(implside::handle(&line)).is_err() {
+                        break;
+                    }
+                }
+            })
+            .expect("worker thread");
+        Worker { tx, rx }
+    }
+    pub fn ask(&self, line: &str, secs: u64) -> Option<String> {
+        self.tx.send(line.to_string()).ok()?;
+        self.rx.recv_timeout(std::time::Duration::from_secs(secs)).ok()
+    }
+}
+
 pub struct Ctx {
+    pub worker: Option<Worker>,
+    pub hung: bool,
     pub prop: String,
     pub tier: String,
     pub seed: u64,
@@ -107,6 +138,8 @@ pub struct Exchange {
 impl Ctx {
     pub fn new(prop: &str, tier: &str, seed: u64) -> Ctx {
         Ctx {
+            worker: None,
+            hung: false,
             prop: prop.to_string(),
             tier: tier.to_string(),
             seed,
@@ -132,7 +165,25 @@ impl Ctx {
     pub fn exchange(&mut self, line: &str) -> Exchange {
         self.evaluations += 1;
         self.distinct.insert(hash_str(line));
-        let imp = implside::handle(line);
+        if self.hung {
+            // the engine is spinning on an earlier request; that violation is already recorded
+            return Exchange { line: line.to_string(), imp: "skipped-after-hang".into(), model: "skipped-after-hang".into(), agree: true, supported: false };
+        }
+        if self.worker.is_none() {
+            self.worker = Some(Worker::spawn());
+        }
+        let limit = if self.tier == "thorough" { 120 } else { 30 };
+        let imp = match self.worker.as_ref().unwrap().ask(line, limit) {
+            Some(s) => s,
+            None => {
+                self.hung = true;
+                self.worker = None;
+                let imp = format!("HANG no reply within {} s", limit);
+                let ex = Exchange { line: line.to_string(), imp: imp.clone(), model: String::new(), agree: false, supported: true };
+                self.violation("oracle", &format!("the implementation did not return within {} s on this request (non-termination)", limit), &ex, line, true);
+                imp
+            }
+        };
         let mut model = self.drv.ask(line);
         if model == "DRIVER-DEAD" {
             // restart once
@@ -145,6 +196,31 @@ impl Ctx {
         }
         let agree = !supported || imp == model || (imp.starts_with("PANIC") && model.starts_with("PANIC"));
         Exchange { line: line.to_string(), imp, model, agree, supported }
+    }
+
+    /// Run a request on the implementation only (shapes whose outcome depends on limits of an
+    /// external crate that the model does not carry, e.g. the size limit of a regex set).
+    pub fn impl_only(&mut self, line: &str) -> String {
+        self.evaluations += 1;
+        self.distinct.insert(hash_str(line));
+        if self.hung {
+            return "skipped-after-hang".into();
+        }
+        if self.worker.is_none() {
+            self.worker = Some(Worker::spawn());
+        }
+        let limit = if self.tier == "thorough" { 120 } else { 30 };
+        match self.worker.as_ref().unwrap().ask(line, limit) {
+            Some(s) => s,
+            None => {
+                self.hung = true;
+                self.worker = None;
+                let imp = format!("HANG no reply within {} s", limit);
+                let ex = Exchange { line: line.to_string(), imp: imp.clone(), model: String::new(), agree: false, supported: false };
+                self.violation("oracle", &format!("the implementation did not return within {} s on this request (non-termination)", limit), &ex, line, true);
+                imp
+            }
+        }
     }
 
     pub fn sample(&mut self, v: serde_json::Value) {
@@ -301,6 +377,25 @@ pub fn case_of_rule_value(rule: &Yaml, docs: Vec<Yaml>, masks: Vec<u64>) -> Opti
         docs,
         masks,
     })
+}
+
+/// Witnesses checked on the implementation only.
+pub fn implonly_cases() -> Vec<(String, CaseReq)> {
+    let mut out = vec![];
+    let mut files: Vec<String> = vec![];
+    if let Ok(rd) = std::fs::read_dir("/verif/corpus/implonly") {
+        for e in rd.flatten() {
+            let p = e.path().to_string_lossy().to_string();
+            if p.ends_with(".txt") {
+                files.push(p);
+            }
+        }
+    }
+    files.sort();
+    for f in files {
+        out.extend(load_corpus_file(&f));
+    }
+    out
 }
 
 pub fn corpus_cases() -> Vec<(String, CaseReq)> {
